@@ -15,6 +15,7 @@ mod c15;
 mod tl;
 mod c11;
 mod c03;
+mod c17;
 
 fn main() {
     let argv: Vec<String> = std::env::args().collect();
@@ -38,6 +39,7 @@ fn main() {
         "reuse" => tl::run_reuse(&a),
         "c11" => c11::run(&a),
         "c03" => c03::run(&a),
+        "c17" => c17::run(&a),
         x => { eprintln!("unknown subcommand {x}"); std::process::exit(2); }
     }
 }
